@@ -44,6 +44,9 @@ def sortable(ip, xs):
 
 def sorted_list(ip, st, v):
     """sorted(v) for a python list of symbolic length with items of sort V; None when v is not of that form"""
+    from .sym import PyListCell
+    if isinstance(v, Ref) and isinstance(st.heap.get(v.cid), PyListCell) and len(st.heap[v.cid].items) <= 1 and not v.path:
+        return [(st, ip.new_cell(st, PyListCell(list(st.heap[v.cid].items))))]      # nothing to compare: a new list with the same items
     if not (isinstance(v, Ref) and isinstance(st.heap.get(v.cid), LstCell)):
         return None
     reg = ip.reg
@@ -94,3 +97,263 @@ def sp_sortable(ip, st, pos, kws):
 def register(ix):
     ix.spec_names["sorted_of"] = sp_sorted_of
     ix.spec_names["sortable"] = sp_sortable
+
+
+# --------------------------------------------------------------------------- a user function that makes bins
+# Field / parameter type  Lib[user.make_bins]:  the `make_bins` argument of lena.structures.Histogram, `a function without
+# arguments that creates new bins`.  ASSUMED about it (listed in the evidence): every call returns a NEW python list of numbers
+# (an object nobody else holds), with the same content each time (the one-dimensional bins `made_bins()`), raises nothing and
+# changes nothing.
+MB_NOTE = ("user function (assumed): make_bins() of Histogram returns a new list of numbers on every call, always with the same "
+           "content, without side effects")
+
+
+def made_bins_term(ip):
+    sort = ip.reg.lst("Real")
+    ip.reg.fun_decl("user_made_bins", "(declare-fun user_made_bins () %s)" % sort)
+    return T("user_made_bins", sort)
+
+
+def lib_user_make_bins(ip, st, pos, kws):
+    if pos or kws:
+        raise U("make_bins called with arguments")
+    t = made_bins_term(ip)
+    st.assume(CMP(">=", ip.reg.l_len(t), I(0)))
+    ip.assumptions.add(MB_NOTE)
+    return [(st, ip.new_cell(st, LstCell(t)))]
+
+
+def sp_made_bins(ip, st, pos, kws):
+    """made_bins(): the content of the bins the user's make_bins() creates"""
+    return ip.lst_view(made_bins_term(ip))
+
+
+def register_make_bins(ix):
+    ix.lib["user.make_bins"] = lib_user_make_bins
+    ix.spec_names["made_bins"] = sp_made_bins
+
+
+# --------------------------------------------------------------------------- python lists of contexts inside a context
+# Contract(ghost={"ctx_lists": True}): a python list whose items are context VALUES (sort Lst_Val: [get_context(v) for v in
+# group]) that is stored into a context dictionary (context["group"] = contexts) is the context value vlist_as_val(l): no
+# dictionary, truthy iff non-empty, a python list; val_as_vlist reads the length and the items back.  Only INSTANCES of
+# these facts at the list terms actually stored are assumed (finitely many per unit: always satisfiable -- a global injective
+# embedding of all lists of context values into the scalars would not be).  The stored list is a SNAPSHOT: the list object
+# must not be changed afterwards (Interp.store refuses it: notes["embedded_lists"]); its items are values already.
+VL_NOTE = ("contexts: a python list of context values stored into a context is a list-valued scalar that reads back with the "
+           "same length and items (ghost ctx_lists; instances at the stored lists only)")
+
+
+def vlist_decl(ip):
+    reg = ip.reg
+    reg.need_val()
+    ls = reg.lst("Val")
+    reg.ufun("vlist_as_val", [ls], "Val")
+    reg.ufun("val_as_vlist", ["Val"], ls)
+    reg.ufun("is_list_Val", ["Val"], "Bool")
+    return ls
+
+
+def _has_bound(text):
+    import re
+    return bool(re.search(r"(?<![|!\w])(ak|q|uk|sk|mk|wf|xi|si|sj|lq|al)\d+(?![\w!|])", re.sub(r"\|[^|]*\|", "", text)))
+
+
+def vlist_embed(ip, st, l):
+    """the context value of the python list with the Lst_Val term l, with the instance facts about it"""
+    ls = vlist_decl(ip)
+    if _has_bound(l.s):
+        raise U("a list of context values built under a quantifier stored into a context")
+    v = "(vlist_as_val %s)" % l.s
+    back = "(val_as_vlist %s)" % v
+    facts = [
+        "(=> (>= (len_{ls} {l}) 0) (and (= (len_{ls} {b}) (len_{ls} {l})) (forall ((vi Int)) (! (=> (and (<= 0 vi) (< vi (len_{ls} {l}))) "
+        "(= (select (arr_{ls} {b}) vi) (select (arr_{ls} {l}) vi))) :pattern ((select (arr_{ls} {b}) vi))))))".format(ls=ls, l=l.s, b=back),
+        "(and (not (isD {v})) (= (truthy_s (sid {v})) (> (len_{ls} {l}) 0)) (is_list_Val {v}))".format(ls=ls, l=l.s, v=v)]
+    for f in facts:
+        ax = T(f, "Bool")
+        if not any(h.s == ax.s for h in st.pc):
+            st.pc.append(ax)
+    ip.assumptions.add(VL_NOTE)
+    return T(v, "Val")
+
+
+def list_value(ip, st, v):
+    """dicts.dterm hook: Val term of a python list of context values (a heap list of sort Lst_Val), or None"""
+    if not (isinstance(v, Ref) and isinstance(st.heap.get(v.cid), LstCell) and not v.path):
+        return None
+    l = ip.deref(st, v)
+    if l.sort != ip.reg.lst("Val"):
+        return None
+    if not ip.spec_mode:
+        st.notes["embedded_lists"] = frozenset(st.notes.get("embedded_lists", ())) | {v.cid}
+    return vlist_embed(ip, st, l)
+
+
+def sp_vlist(ip, st, pos, kws):
+    """vlist(xs): the context value that the python list xs of context values is (as stored into a context)"""
+    from .speclib import lst_term
+    return Opaque(vlist_embed(ip, st, lst_term(ip, st, pos[0], ip.reg.lst("Val"))))
+
+
+def _sexp_split(text):
+    """top-level parts of the s-expression `(a b c ...)` (None if text is not one parenthesised list)"""
+    text = text.strip()
+    if not (text.startswith("(") and text.endswith(")")):
+        return None
+    parts, depth, cur, bar = [], 0, "", False
+    for ch in text[1:-1]:
+        if ch == "|":
+            bar = not bar
+        if not bar:
+            if ch == "(":
+                depth += 1
+            elif ch == ")":
+                depth -= 1
+            elif ch == " " and depth == 0:
+                if cur:
+                    parts.append(cur)
+                cur = ""
+                continue
+        cur += ch
+    if cur:
+        parts.append(cur)
+    return parts if depth == 0 else None
+
+
+def read_over_store(text):
+    """(vget (D (store M k (some X))) k)  ->  X   (a read of the key just stored: what the array theory gives; done
+    syntactically so that the hypotheses about X are found by matching); any other text is returned unchanged"""
+    p = _sexp_split(text)
+    if p and len(p) == 3 and p[0] == "vget":
+        d = _sexp_split(p[1])
+        if d and len(d) == 2 and d[0] == "D":
+            s = _sexp_split(d[1])
+            if s and len(s) == 4 and s[0] == "store" and s[2] == p[2]:
+                v = _sexp_split(s[3])
+                if v and len(v) == 2 and v[0] == "some":
+                    return v[1]
+    return text
+
+
+def sp_as_vlist(ip, st, pos, kws):
+    """as_vlist(x): the items of the context value x read as a python list of context values"""
+    from .dicts import dterm
+    ls = vlist_decl(ip)
+    t = T("(val_as_vlist %s)" % read_over_store(dterm(ip, st, pos[0]).s), ls)
+    if not _has_bound(t.s):
+        ax = T("(>= (len_%s %s) 0)" % (ls, t.s), "Bool")
+        if not any(h.s == ax.s for h in st.pc):
+            st.pc.append(ax)
+    return ip.lst_view(t)
+
+
+def sp_is_vlist(ip, st, pos, kws):
+    from .dicts import dterm
+    vlist_decl(ip)
+    return Bool(T("(is_list_Val %s)" % dterm(ip, st, pos[0]).s, "Bool"))
+
+
+def register_ctx_lists(ix):
+    ix.spec_names["vlist"] = sp_vlist
+    ix.spec_names["as_vlist"] = sp_as_vlist
+    ix.spec_names["is_vlist"] = sp_is_vlist
+
+
+# --------------------------------------------------------------------------- a python set of context values
+# set(<generator of context values, symbolic length>): the set is represented by a list term holding exactly its members
+# (duplicates do not matter).  Defined: s.add(x), any(s) / all(s), `x in s` (python's ==: scalars are classes of ==-equal
+# constants in the encoding, so False in {0} holds as in python).  Everything else on such a set (len, iteration order, ==) is
+# out-of-subset (the cell is no sequence for the rest of the engine).
+class ValSetCell(object):
+    def __init__(self, members):
+        self.members = members          # Lst_Val term
+
+    def __repr__(self):
+        return "ValSetCell(%s)" % self.members.s[:40]
+
+
+def set_of_values(ip, st, view):
+    """set(view) for a view of symbolic length whose items are context values; None otherwise"""
+    from .calls import materialise
+    if not ip.spec_mode and getattr(view, "lazy", False) and getattr(view, "get2", None) is not None:
+        from .histlib import symbolic_listcomp      # items that call contracts: unknowns per item (see all / any)
+        lv = symbolic_listcomp(ip, st, st, view)
+        view = ip.as_view(st, lv) if isinstance(lv, Ref) else lv
+    sample = view.get(T("0", "Int"))
+    if not (isinstance(sample, Opaque) and sample.sort == "Val"):
+        return None
+    t = getattr(view, "term", None)
+    if t is None or t.sort != ip.reg.lst("Val"):
+        t = materialise(ip, st, view, ip.reg.lst("Val"))
+    return [(st, ip.new_cell(st, ValSetCell(t)))]
+
+
+def valset_method(ip, st, recv, name, pos, kws):
+    from .dicts import dterm
+    from .sym import NONE
+    cell = st.heap[recv.cid]
+    if name == "add" and len(pos) == 1 and not kws:
+        st.heap[recv.cid] = ValSetCell(ip.reg.l_append(cell.members, dterm(ip, st, pos[0])))
+        return [(st, NONE)]
+    raise U("method %s of a set of context values" % name)
+
+
+def valset_members(ip, st, v):
+    """view of the members of a set of context values, or None if v is no such set"""
+    if isinstance(v, Ref) and isinstance(st.heap.get(v.cid), ValSetCell):
+        return ip.lst_view(st.heap[v.cid].members)
+    return None
+
+
+def valset_contains(ip, st, b, a):
+    """`a in b` for a set of context values b (None if b is no such set)"""
+    from .dicts import dterm
+    mem = valset_members(ip, st, b)
+    if mem is None:
+        return None
+    x = dterm(ip, st, a)
+    q = T("vs%d" % next(ip.bound), "Int")
+    return T("(exists ((%s Int)) (and (<= 0 %s) (< %s %s) (= %s %s)))" % (
+        q.s, q.s, q.s, mem.len.s, ip.reg.l_get(mem.term, q).s, x.s), "Bool")
+
+
+# --------------------------------------------------------------------------- warnings.warn
+def lib_warn(ip, st, pos, kws):
+    """warnings.warn(message, category, stacklevel): ASSUMED to have no effect the code under contract can observe (the
+    warning filters of the process do not turn warnings into exceptions)"""
+    from .sym import NONE
+    ip.assumptions.add("library contract (tier A): warnings.warn has no observable effect (warnings are not turned into errors)")
+    return [(st, NONE)]
+
+
+def register_warn(ix):
+    ix.lib[("warnings", "warn")] = lib_warn
+
+
+# --------------------------------------------------------------------------- decimal: why DSum's precision loop ends
+# dec_digits(x): the number of significant decimal digits of the exact value x.  ASSUMED (library, tier A -- used only by the
+# contract DSum.fill#terminates of contracts/P_acc2.py): decimal.Context.add signals Inexact exactly when the exact sum
+# needs more significant digits than the precision,  dec_inexact(x, prec) <=> prec < dec_digits(x),  and the exact sum of two
+# Decimals (finite decimal fractions) has finitely many digits: dec_digits is an integer-valued function.  (The upper limit
+# decimal.MAX_PREC of the precision and the exponent range of the context are not modelled.)
+DIG_NOTE = ("library contract (tier A): decimal -- Inexact is signalled iff the exact result has more significant digits than "
+            "the precision of the context; the exact sum of two Decimals has finitely many digits (dec_digits); MAX_PREC and "
+            "the exponent limits are not modelled")
+
+
+def sp_dec_digits(ip, st, pos, kws):
+    from .smt import to_real
+    from .sym import Num
+    reg = ip.reg
+    reg.ufun("dec_inexact", ["Real", "Int"], "Bool")
+    f = reg.ufun("dec_digits", ["Real"], "Int")
+    ax = T("(forall ((x Real) (p Int)) (! (= (dec_inexact x p) (< p (dec_digits x))) :pattern ((dec_inexact x p))))", "Bool")
+    if not any(a.s == ax.s for a in reg.axioms):
+        reg.axioms.append(ax)
+    ip.assumptions.add(DIG_NOTE)
+    return Num(T("(%s %s)" % (f, to_real(ip.num(pos[0])).s), "Int"))
+
+
+def register_dec_digits(ix):
+    ix.spec_names["dec_digits"] = sp_dec_digits
